@@ -319,8 +319,19 @@ func c11Ageing(ev *vlib.Evidence, n int) {
 			for i := 0; i < np; i++ {
 				p := fmt.Sprintf("%sp%d", sc.pfx, i)
 				sc.peers = append(sc.peers, p)
-				exec(vlib.StoreOp{Op: "SetNode", ID: p, IsHost: true, AgeSec: vlib.Pick(r, 105, 110, 110, 0)})
+				age := vlib.Pick(r, 105, 110, 110, 0)
+				if j%2 == 1 {
+					age = 0 // the first tracked peer is fresh ...
+					if i > 0 {
+						age = vlib.Pick(r, 105, 110) // ... the ones added by the second keep-alive are not
+					}
+				}
+				exec(vlib.StoreOp{Op: "SetNode", ID: p, IsHost: true, AgeSec: age})
 				sc.checkin = append(sc.checkin, r.Intn(2) == 0)
+			}
+			if j%2 == 1 && np > 1 {
+				// the peers become tracked in two keep-alives, the later ones with the older check-ins
+				exec(vlib.StoreOp{Op: "UpdateNodePeers", ID: o, Peers: sc.peers[:1], Block: 1})
 			}
 			exec(vlib.StoreOp{Op: "UpdateNodePeers", ID: o, Peers: sc.peers, Block: 1})
 			switch r.Intn(4) {
